@@ -14,17 +14,17 @@ use std::collections::{BTreeMap, BTreeSet};
 
 /// lexically normalised path
 #[derive(Clone, Debug, PartialEq, Eq, Hash, PartialOrd, Ord)]
-struct MPath {
-    abs: bool,
-    ups: usize,
-    segs: Vec<String>,
+pub(crate) struct MPath {
+    pub(crate) abs: bool,
+    pub(crate) ups: usize,
+    pub(crate) segs: Vec<String>,
 }
 
 impl MPath {
-    fn cwd() -> MPath {
+    pub(crate) fn cwd() -> MPath {
         MPath { abs: false, ups: 0, segs: vec![] }
     }
-    fn parse(s: &str) -> MPath {
+    pub(crate) fn parse(s: &str) -> MPath {
         let mut p = MPath { abs: s.starts_with('/'), ups: 0, segs: vec![] };
         p.push_str(s);
         p
@@ -42,7 +42,7 @@ impl MPath {
             }
         }
     }
-    fn join(&self, s: &str) -> MPath {
+    pub(crate) fn join(&self, s: &str) -> MPath {
         if s.starts_with('/') {
             return MPath::parse(s);
         }
@@ -50,10 +50,10 @@ impl MPath {
         p.push_str(s);
         p
     }
-    fn parent(&self) -> MPath {
+    pub(crate) fn parent(&self) -> MPath {
         self.join("..")
     }
-    fn last(&self) -> Option<&str> {
+    pub(crate) fn last(&self) -> Option<&str> {
         self.segs.last().map(|s| s.as_str())
     }
     fn with_last_suffix(&self, suffix: &str) -> MPath {
@@ -62,7 +62,7 @@ impl MPath {
         p.segs.push(format!("{}{}", l, suffix));
         p
     }
-    fn key(&self) -> String {
+    pub(crate) fn key(&self) -> String {
         let mut parts: Vec<String> = Vec::new();
         for _ in 0..self.ups {
             parts.push("..".to_owned());
@@ -86,7 +86,7 @@ fn has_extension(name: &str) -> bool {
     }
 }
 
-fn extension(name: &str) -> Option<&str> {
+pub(crate) fn extension(name: &str) -> Option<&str> {
     match name.rfind('.') {
         Some(0) | None => None,
         Some(i) => Some(&name[i + 1..]),
@@ -106,13 +106,13 @@ impl ModeCfg {
             ModeCfg::Luau { .. } => "init",
         }
     }
-    fn to_json5(&self) -> String {
+    pub(crate) fn to_json5(&self) -> String {
         match self {
             ModeCfg::Path { mfn, sources } => json!({"name": "path", "module_folder_name": mfn, "sources": sources.iter().cloned().collect::<BTreeMap<String, String>>()}).to_string(),
             ModeCfg::Luau { aliases } => json!({"name": "luau", "aliases": aliases.iter().cloned().collect::<BTreeMap<String, String>>()}).to_string(),
         }
     }
-    fn label(&self) -> String {
+    pub(crate) fn label(&self) -> String {
         match self {
             ModeCfg::Path { mfn, .. } => format!("path({})", mfn),
             ModeCfg::Luau { .. } => "luau".to_owned(),
@@ -122,15 +122,15 @@ impl ModeCfg {
 
 #[derive(Clone, Debug, Serialize, Deserialize)]
 pub struct Env {
-    mode: ModeCfg,
+    pub(crate) mode: ModeCfg,
     /// directory of the darklua configuration file ("" or "cfg")
-    config_dir: String,
+    pub(crate) config_dir: String,
     /// aliases of a `.luaurc` at the root
-    luaurc: Vec<(String, String)>,
+    pub(crate) luaurc: Vec<(String, String)>,
 }
 
 #[derive(Debug, Clone, PartialEq)]
-enum Fail {
+pub(crate) enum Fail {
     UnknownSource(String),
     NotFound(Vec<String>),
     /// the documentation does not say what happens
@@ -222,7 +222,7 @@ fn candidates(p: &MPath, mfn: &str) -> Vec<MPath> {
     v
 }
 
-fn resolve(env: &Env, req: &str, requiring: &str, files: &BTreeSet<String>) -> Result<String, Fail> {
+pub(crate) fn resolve(env: &Env, req: &str, requiring: &str, files: &BTreeSet<String>) -> Result<String, Fail> {
     let h = head(env, req, requiring)?;
     let cands = candidates(&h, env.mode.mfn());
     for c in &cands {
